@@ -206,6 +206,20 @@ class MultitaskMultivariateNormal(MultivariateNormal):
     def _new_like(self, mean, covariance_matrix):
         return self.__class__(mean, covariance_matrix, interleaved=self._interleaved)
 
+    def unsqueeze(self, dim: int) -> "MultitaskMultivariateNormal":
+        if self.islazy:
+            return super().unsqueeze(dim)
+        # For a dense covariance the base class assembles the result from the scale_tril without calling the
+        # constructor, which would leave out the multitask layout: go through the constructor instead
+        if dim > len(self.batch_shape) or dim < -len(self.batch_shape) - 1:
+            raise IndexError(
+                "Dimension out of range (expected to be in range of "
+                f"[{-len(self.batch_shape) - 1}, {len(self.batch_shape)}], but got {dim})."
+            )
+        if dim < 0:
+            dim = len(self.batch_shape) + dim + 1
+        return self._new_like(self.mean.unsqueeze(dim), self.covariance_matrix.unsqueeze(dim))
+
     def get_base_samples(self, sample_shape=torch.Size()):
         base_samples = super().get_base_samples(sample_shape)
         if not self._interleaved:
